@@ -222,28 +222,30 @@ Section Total.
       destruct str; [eexists; reflexivity|].
       destruct jsonpath as [jp|].
       + unfold path_branch. cbv zeta.
-        assert (Hgen : forall v, returns
+        assert (Hgen : forall v (nm : bool), returns
           (match helper, call with
            | Some h, ClSome (CallExpr _ ps _) =>
                let* r := ev_paramsopt ps st in
                let '(pvals, st1) := r in
                match lookup h with
-               | Some hf => let* hr := hf (VJ st :: v :: pvals) st1 in let '(o, v', st2) := hr in Ok (EvVal v' o, st2)
+               | Some hf => if nm && subject_helper h then Ok (EvVal vfalse ORef, st1)
+                            else let* hr := hf (VJ st :: v :: pvals) st1 in let '(o, v', st2) := hr in Ok (EvVal v' o, st2)
                | None => Ok (EvCollapse ORef, st1)
                end
            | _, _ => Ok (EvVal v ORef, st)
            end)).
-        { intro v. destruct helper as [h|]; [|eexists; reflexivity].
+        { intros v nm. destruct helper as [h|]; [|eexists; reflexivity].
           destruct call as [|[ident ps sel]]; [eexists; reflexivity|].
           cbn [T_callopt T_callexpr] in IHcall. destruct IHcall as [_ IHps].
           cbn [shape_callopt] in Hs.
           destruct (IHps st Hs) as [[pvals st1] Hp]. rewrite Hp. cbn [bind].
           destruct (lookup h) as [hf|] eqn:Hl; [|eexists; reflexivity].
+          destruct (nm && subject_helper h); [eexists; reflexivity|].
           destruct (lookup_total h hf Hl (VJ st :: v :: pvals) st1) as [[[o v'] st2] Hh].
           rewrite Hh. cbn [bind]. eexists; reflexivity. }
-        destruct (jget jp st) as [|x l] eqn:Hj.
-        * destruct helper; [apply Hgen | eexists; reflexivity].
-        * destruct helper; apply Hgen.
+        destruct (jget jp st) as [|x l] eqn:Hj; cbn [no_match].
+        * destruct helper; [apply (Hgen _ true) | eexists; reflexivity].
+        * destruct helper; apply (Hgen _ false).
       + destruct regexp; [eexists; reflexivity|].
         destruct sub as [|e].
         * destruct call as [|c]; [eexists; reflexivity|].
